@@ -273,19 +273,25 @@ structure MT (α : Type) where
   width : α
   width1 : α
 
-/-- the five `return {true, stp}` of the loop body (morethuente.cpp:195-217): "no further progress" (×2), `stp` at
-    `stpmax()` / `stpmin()`, convergence; `f, g` are `state.fx()`, `state.dg(descent)` -/
-def mtExit (cfg : Cfg α) (s0 : Eval α) (m : MT α) (f g : α) : Bool :=
+/-- the convergence test (morethuente.cpp, "Check convergence"; since 3b214f8 it is evaluated FIRST and is the only
+    `return {true, stp}`): sufficient decrease and curvature; `f, g` are `state.fx()`, `state.dg(descent)` -/
+def mtConverged (cfg : Cfg α) (s0 : Eval α) (m : MT α) (f g : α) : Bool :=
+  let gtest := cfg.c1 * s0.g
+  let ftest := s0.f + m.dc.stp * gtest
+  decide (f ≤ ftest ∧ absv g ≤ cfg.c2 * (-s0.g))
+
+/-- the four `return {false, stp}` that follow ("Check if further progress can be made"; they reported success before
+    3b214f8): "no further progress" (×2), `stp` at `stpmax()` / `stpmin()` -/
+def mtGiveUp (cfg : Cfg α) (s0 : Eval α) (m : MT α) (f g : α) : Bool :=
   let gtest := cfg.c1 * s0.g
   let stp := m.dc.stp
   let ftest := s0.f + stp * gtest
   decide (m.dc.brackt = true ∧ (stp ≤ m.stmin ∨ stp ≥ m.stmax)) ||
   decide (m.dc.brackt = true ∧ (m.stmax - m.stmin) ≤ cfg.eps0 * m.stmax) ||
   decide (stp ≥ stpmax cfg.macheps ∧ f ≤ ftest ∧ g ≤ gtest) ||
-  decide (stp ≤ stpmin cfg.macheps ∧ (f > ftest ∨ g ≥ gtest)) ||
-  decide (f ≤ ftest ∧ absv g ≤ cfg.c2 * (-s0.g))
+  decide (stp ≤ stpmin cfg.macheps ∧ (f > ftest ∨ g ≥ gtest))
 
-/-- morethuente.cpp:219-239: `dcstep` on the function itself or, in stage 1 while the modified function
+/-- morethuente.cpp:220-240: `dcstep` on the function itself or, in stage 1 while the modified function
     `ψ(t) = φ(t) - φ(0) - ftol·φ'(0)·t` has not yet a non-positive value and non-negative slope, on the modified function -/
 def mtDcstep (cfg : Cfg α) (s0 : Eval α) (m : MT α) (f g : α) (stage1 : Bool) : DC α :=
   let gtest := cfg.c1 * s0.g
@@ -299,7 +305,7 @@ def mtDcstep (cfg : Cfg α) (s0 : Eval α) (m : MT α) (f g : α) (stage1 : Bool
     { r with fx := r.fx + r.stx * gtest, fy := r.fy + r.sty * gtest, dx := r.dx + gtest, dy := r.dy + gtest }
   else dcstep cfg m.dc f g m.stmin m.stmax
 
-/-- morethuente.cpp:241-269 given the outcome `dc` of `dcstep`: bisection safeguard, new bounds `stmin/stmax`, widths,
+/-- morethuente.cpp:242-270 given the outcome `dc` of `dcstep`: bisection safeguard, new bounds `stmin/stmax`, widths,
     clamping to `[stpmin(), stpmax()]`, and the fallback `stp = stx` when no further progress is possible -/
 def mtBounds (cfg : Cfg α) (m : MT α) (stage1 : Bool) (dc : DC α) : MT α :=
   let stp1 :=
@@ -316,7 +322,7 @@ def mtBounds (cfg : Cfg α) (m : MT α) (stage1 : Bool) (dc : DC α) : MT α :=
     then dc.stx else stp2
   ⟨stage1, { dc with stp := stp3 }, stmin, stmax, width, width1⟩
 
-/-- the rest of the loop body up to the next trial step (morethuente.cpp:189-193, 219-269): stage switch, `dcstep` on the
+/-- the rest of the loop body up to the next trial step (morethuente.cpp: stage switch, then everything after the exit tests): stage switch, `dcstep` on the
     (possibly modified) function, bisection safeguard, new bounds, clamping, the `stp = stx` fallback.
     The next trial step is `(mtNext …).dc.stp`. -/
 def mtNext (cfg : Cfg α) (s0 : Eval α) (m : MT α) (f g : α) : MT α :=
@@ -324,11 +330,12 @@ def mtNext (cfg : Cfg α) (s0 : Eval α) (m : MT α) (f g : α) : MT α :=
   let stage1 := if m.stage1 = true ∧ f ≤ ftest ∧ g ≥ 0 then false else m.stage1
   mtBounds cfg m stage1 (mtDcstep cfg s0 m f g stage1)
 
-/-- morethuente.cpp:187-280, one entry per loop iteration -/
+/-- morethuente.cpp:187-281, one entry per loop iteration -/
 def morethuente (cfg : Cfg α) (φ : Oracle α) (s0 : Eval α) : Nat → MT α → Ctx α → Res α
   | 0, m, ctx => ⟨false, m.dc.stp, ctx⟩
   | n + 1, m, ctx =>
-    if mtExit cfg s0 m ctx.cur.f ctx.cur.g then ⟨true, m.dc.stp, ctx⟩
+    if mtConverged cfg s0 m ctx.cur.f ctx.cur.g then ⟨true, m.dc.stp, ctx⟩
+    else if mtGiveUp cfg s0 m ctx.cur.f ctx.cur.g then ⟨false, m.dc.stp, ctx⟩
     else
       let m' := mtNext cfg s0 m ctx.cur.f ctx.cur.g
       let ctx' := ask φ ctx m'.dc.stp
